@@ -23,6 +23,8 @@ package archiver
 // archive$1: the per-URL fetch goroutine.
 
 //@ func ProcessBody
+//@   property C10
+//@   sweep idx slice div
 //@   opaque
 //@   modifies models.URL::*
 
